@@ -144,7 +144,7 @@ pub fn sweep(p: &Program, variant: usize) -> Result<(u64, u64), (String, String)
             }
         }
         // fresh names over the whole identifier alphabet of the language
-        let new = if old.starts_with('@') { "@9z-$" } else { "z-z$9" };
+        let new = if old.starts_with('@') { "@9z-$" } else { "z-z$9-" };
         let edit = srv
             .rename(&file, pos.line, pos.character, new)
             .map_err(|e| died(&e, "textDocument/rename", &mut srv, &on))?;
@@ -282,7 +282,7 @@ pub fn sweep(p: &Program, variant: usize) -> Result<(u64, u64), (String, String)
                 }
                 let bstart = shift(o.module, o.start);
                 let bpos = crate::textmodel::LineTable::new(&new_texts[o.module].1).position(bstart);
-                let newer = "q$-9";
+                let newer = "q$-9-";
                 let edit2 = srv
                     .rename(&l.texts[o.module].0, bpos.line, bpos.character, newer)
                     .map_err(|e| died(&e, "textDocument/rename", &mut srv, &on))?;
@@ -413,7 +413,7 @@ impl Engine for C18 {
         }
     }
     fn rule(&self) -> String {
-        "same programs and layouts as C17; prepareRename at EVERY UTF-16 position of every file; wherever it answers a range, rename to the fresh name `z-z$9` (`@9z-$` for a reference; both use the whole identifier alphabet). Oracle: server alive after every request; prepareRename's range is the identifier under the cursor; edits pairwise disjoint; each edit replaces text equal to the old name; the edit set equals the binder occurrence plus all and only the uses bound to it by the reference resolver (for an import qualifier: the qualifier and every qualified use of it in that module); the edited sources are accepted by the real compiler and emit the original document modulo names of implicit components (for an @reference: with that component renamed). Non-trivial = at least one rename offered; distinct = distinct programs".into()
+        "same programs and layouts as C17; prepareRename at EVERY UTF-16 position of every file; wherever it answers a range, rename to the fresh name `z-z$9-` (`@9z-$` for a reference; both use the whole identifier alphabet, the first one ends in a dash). Oracle: server alive after every request; prepareRename's range is the identifier under the cursor; edits pairwise disjoint; each edit replaces text equal to the old name; the edit set equals the binder occurrence plus all and only the uses bound to it by the reference resolver (for an import qualifier: the qualifier and every qualified use of it in that module); the edited sources are accepted by the real compiler and emit the original document modulo names of implicit components (for an @reference: with that component renamed). Non-trivial = at least one rename offered; distinct = distinct programs".into()
     }
     fn assumptions(&self) -> Vec<String> {
         vec![
